@@ -109,6 +109,16 @@ CLAIMED = {
    text="The objective of state_gradient is modelled as target x prod(steps) x rho0 over an arbitrary commutative ring. For every number of steps, bond dimension and number of environments it is proved that replacing any half-step propagator P_k by P_k+Delta changes Z by exactly the contraction of the adjoint tensor (forward tensor x MPO x specification backward tensor) with Delta. Over the dual numbers K[eps] the eps-coefficient of Z equals the value _chain_rule computes. For one and two environments the tensors the code builds (axis numbers, leg swaps, environment order of the backward pass, edge bookkeeping, chain-rule wiring - all regenerated from the source on every run) are proved equal to the specification ones. The theorem for two non-commuting environments needs the backward pass to visit the environments in reversed order, which exposed and now guards the order defect. The reported dynamics are proved equal to compute_dynamics' contraction. Every run also compares the real state_gradient's states, stored forward/backward/adjoint tensors and final gradient with the model on random hand-built process tensors to 1e-9.",
    ref="§4 C08",
    note=TB + "tensornetwork's `@`/reorder_edges axis conventions (pinned numerically by the correspondence); scipy expm and numdifftools enter as given arrays (their accuracy is not shown); code=spec proved for 1-2 environments; controls not modelled."),
+ "C09": dict(
+   technique="Lean 4 proof over a model wired from translator-generated call arguments + differential correspondence with argument logging",
+   text="Every time, step index, state list and field value that MeanFieldTempo (+backend) and compute_dynamics_with_field hand to the user's field_eom, to the propagators and to the tensor-network step is regenerated from the source as Lean definitions; the executable models of both loops are built only from these. Theorems prove, for all equations of motion, start times, dt, numbers of systems and steps (including 0) and both record_all settings, that the two methods return identical (states, field) records and make the same sequence of field_eom evaluations, that the field update is Heun's rule with stages at (t_n, states_n) and (t_n+dt, states_n+1), that it is exact for equations linear in time, and that field-independent propagators reduce each system to plain TEMPO / compute_dynamics. The correspondence runs both real methods with logging wrappers on 1-3 systems of different dimensions and compares logged times bit-exactly and fields to 1e-10 with the model evaluated on the same states, and the two real methods with each other.",
+   ref="§4 C09",
+   note=TB + "translator fragment MeanFieldTimes (shape-checked), binary64 model (normal range), purity of the user's callables, hypothesis hnet (process tensors correspond to the baths; C02), abstract tensor-network/propagator step, exact arithmetic for field values; mft_linear_exact assumes an exactly representable grid (otherwise stage_times_accurate bounds the time error); no controls."),
+ "C10": dict(
+   technique="Lean 4 proof on a translator-tied executable model + differential correspondence",
+   text="Theorems for all chain lengths: from the generated site factors and Trotter layer sequences every site Liouvillian and every coupling gets exactly dt/2 per propagator; from the generated read/write sets the sequential loop, Executor.map and every completion order of a layer give the same augmented MPS; uncoupled chains evolve as the product of the single-site compute_dynamics steps (same operation sequence, PT.mpoStep); two-site and commuting-gate chains reduce to one exact gate per bond; norm and partial-trace consistency of reduced states. The model is regenerated from the source on every run and compared with the real back-end (layer tables, per-gate copied/replaced tensors and provenance under all completion permutations, dense evolution with real tensors, three execution modes in fresh interpreters).",
+   ref="§4 C10",
+   note=TB + "expm laws (one-parameter group, expm(A x 1 + 1 x B)=expm A x expm B) as hypotheses; SVD truncation modelled by its exact limit; Executor.map order and pool/pickling runtime; ControlCompose fragment (C18) for the step order; dt/2, dt/4 exact in binary64."),
  "C11": dict(
    technique="Lean 4 proof on an imaginary-time path-sum model + translator fragment GibbsLoop + exact-rational correspondence with the real TIBaseBackend/GibbsTempo",
    text="The Gibbs backend is modelled as a path sum over system basis states whose propagator orientations, stored-array orientation, factor formulas, coefficient cells, loop bound and thermal integrands are regenerated from the source on every run. Proved for all dimensions and step counts: diagonal Hamiltonians give diagonal Boltzmann-type states with exponent (summed Matsubara cells = eta(n dtau)-eta(0)) independent of the number of steps; at zero coupling the stored state is q^(2k)=expm(-k dtau H) for any (complex Hermitian) H, which only type-checks if the source stores the transposed backend arrays; trace one after normalisation, Hermiticity by path reversal; compute() is idempotent from any object state; the eta integrand at tau=1/T is beta J/omega and the large-frequency fall-back is accurate to O(exp(-omega/T)) also in imaginary time. The correspondence ships the real propagator and factor tables as exact rationals and compares dynamics, get_state, backend.data (identity and random initial arrays), coefficient cells, summed cells vs direct quadrature, time step, labels and counters after repeated compute() calls; hypotheses of the theorems are evaluated on the real tensors.",
